@@ -49,6 +49,10 @@ func padNodes(p Pad) []*S {
 	if p.Kind == "text" {
 		return []*S{Text(padText(p))}
 	}
+	if p.Kind == "longcomment" {
+		// one comment whose body has p.Size bytes
+		return []*S{{K: "comment", T: BStr(" " + strings.Repeat("c{{ spy(1) }}", p.Size/13+1)[:p.Size] + " ")}}
+	}
 	out := make([]*S, 0, p.Size)
 	for i := 0; i < p.Size; i++ {
 		body := ""
@@ -203,6 +207,10 @@ func TestC14Padding(t *testing.T) {
 			if !g.dashes && rapid.IntRange(0, 2).Draw(rt, "padkind") == 0 {
 				p.Kind = "comments"
 				p.Size = rapid.SampledFrom([]int{1, 2, 9, 10, 11, 12, 40, 330, 334, 340, 400}).Draw(rt, "ncomments")
+				if rapid.IntRange(0, 2).Draw(rt, "onelong") == 0 {
+					p.Kind = "longcomment"
+					p.Size = rapid.SampledFrom([]int{0, 1, 4000, 4096, 5000, 65535, 65536, 65537, 70000, 100000}).Draw(rt, "commentlen")
+				}
 			} else {
 				p.Kind = "text"
 				sizes := c14Sizes
